@@ -561,8 +561,11 @@ def run_job(job, workdir):
         raise Undecided("job %s: back end ignored a quantifier" % job.name)
     if not obligations:
         raise Undecided("job %s: cbmc produced no obligations (rc=%d): %s" % (job.name, rc, (alltxt + err)[-1500:]))
+    # CBMC leaves obligations UNKNOWN when others in the same run fail; a FAILURE is a definite verdict and is reported,
+    # UNKNOWN ones are then neither discharged nor failed.  Without any failure an UNKNOWN status is "undecided".
+    real_fail = [o for o in obligations if o["status"] == "FAILURE" and not o["desc"].startswith("CANARY") and o["class"] != "instrumentation"]
     for o in obligations:
-        if o["status"] not in ("SUCCESS", "FAILURE"):
+        if o["status"] not in ("SUCCESS", "FAILURE") and not real_fail:
             raise Undecided("job %s: obligation %s has status %s" % (job.name, o["name"], o["status"]))
     names = [o["name"] for o in obligations]
     for pat in job.expect:
@@ -577,7 +580,7 @@ def run_job(job, workdir):
         if not canary:
             raise Undecided("job %s: no canary assertion found (harness must end in VERIF_CANARY)" % job.name)
         bad = [o for o in canary if o["status"] != "FAILURE"]
-        if bad:
+        if bad and not real_fail:
             raise Undecided("job %s: VACUOUS -- canary after the call is unreachable: contradictory "
                             "requires/assumptions (%s)" % (job.name, bad[0]["name"]))
         res["canary"] = "%d/%d reachable" % (len(canary), len(canary))
